@@ -57,6 +57,13 @@ def make_data(d, n, law, rho):
         X = Z.copy()
         k = max(1, n // 20)
         X[:k] = X[:k] * 10.0
+    elif law == "q0":  # first coordinate takes two exact values only (many exact ties in one coordinate; the cloud is still full-dimensional)
+        X = Z.copy()
+        X[:, 0] = np.where(Z[:, 0] >= 0, 1.0, -1.0) if d > 1 else Z[:, 0]
+    elif law == "walls":  # a third of the points sit exactly on the walls 0.0 / 1.0 of the first coordinate
+        X = Z.copy()
+        if d > 1:
+            X[::3, 0] = np.where(Z[::3, 0] >= 0, 1.0, 0.0)
     elif law == "contam1":
         X = Z.copy()
         X[0] = 1e6
@@ -424,7 +431,7 @@ KINDS = {"session": run_session19, "dforms": run_dforms, "reuse": run_reuse, "da
 def plan(ctx):
     th = ctx.thorough
     cases = []
-    laws = ["gauss", "t1", "t2", "t5", "t30", "skew", "contam5", "contam1"]
+    laws = ["gauss", "t1", "t2", "t5", "t30", "skew", "contam5", "contam1", "q0", "walls"]
     for d in (1, 2, 3, 5, 8):
         ns = [4 * d, 10 * d, 50 * d] + ([2000] if th else [])
         for n in sorted(set(ns)):
